@@ -14,6 +14,7 @@ func init() {
 }
 
 func runC05(r *engine.Run) {
+	r.Rule("DOM-takeover", "see C04: MergeDB installs the root it is given and iterates over the donor store on every path: a follower that takes over the dead-node list of a state change but keeps its old root (an empty new root skipped) reports reachable nodes as dead")
 	r.Rule("DOM-cancel", "AddChange removes the new node's hash from the dead set (delete(cc.Deletes, newNode.GetHash())) on every path from entry to every return: re-created content is never left recorded as dead; dead records are keyed by the hash of the node they hold")
 	r.Rule("FRESH-bytes", "see C03: the byte slices handed out by the node accessors (MarshalMsg, Encode, GetHashBytes, GetValueBytes in core/util) are new buffers on every return: nil, make/conversion results, results of calls that produce new buffers, or appends to such; never a field, element, global or map entry. FRESH-node relies on this, and callers of GetNodeValueRaw own (and may overwrite) the slice they get")
 	r.Rule("FRESH-node", "see C03: a node object held in the dead set is never rewritten afterwards (its hash is computed on demand, so the dead record would name the live rewritten node)")
@@ -56,6 +57,7 @@ func runC05(r *engine.Run) {
 	mptLockDiscipline(r)
 	agreeMergeSnapshot(r, "AGREE-snapshot")
 	cloneDeep(r)
+	domTakeover(r, "DOM-takeover")
 }
 
 func domCancel(r *engine.Run) {
